@@ -44,7 +44,7 @@ SpecStep(cfg, meta, pre, e, post) ==
 ConcFails(r) ==
   CASE r.ev = "quiesce"  -> QuiesceFails(r, r.cfgs, r.metas)
     [] r.ev = "deadlock" -> IF GenuineDeadlock(r) THEN {"C17"} ELSE {"bogus-deadlock-report"}
-    [] r.ev = "hang"     -> {"C17"}
+    [] r.ev = "hang"     -> {"C17", "C20"}     \* a call that does not return
     [] OTHER -> {}
 
 InitFrom(r) ==
